@@ -40,6 +40,13 @@ type Route struct {
 	// Used by the RRPicker
 	total uint64
 
+	// cursor, when set, is used by the RRPicker instead of total. It is
+	// handed on to the route with the same host and path of the next
+	// routing table (see SetTable) so that round-robin continues where
+	// it was instead of starting at the first target again whenever
+	// a table is installed.
+	cursor *uint64
+
 	// Glob represents compiled pattern.
 	Glob glob.Glob
 }
